@@ -14,6 +14,8 @@ structure St where
   /-- the stream selected by the `@<id>` prefix of the current op (default 1) -/
   cur : Nat := 1
   dead : List (Nat × Dir) := []
+  /-- the last `gen:` token expanded (a table's `dec` and `cmp` lines name the same plaintext) -/
+  genCache : Option (String × Bytes) := none
   decT : List (Enc × Bytes × Option Bytes) := []
   cmpT : List (Enc × Bytes × Bytes) := []
 
@@ -37,6 +39,32 @@ def codec (s : St) (alt : Bool) : Codec where
   decomp e x := match lookupDec s.decT e x with
     | some y => y
     | none => if alt then some [0xAA] else none
+
+/-- `pat` repeated cyclically to `n` bytes -/
+def genBytes (pat : Array UInt8) (n : Nat) : Bytes :=
+  let rec go : Nat → Bytes → Bytes
+    | 0, acc => acc
+    | i + 1, acc => go i (pat[i % pat.size]! :: acc)
+  if pat.size = 0 then [] else go n []
+
+/-- a byte-string token: hex, `-`, or `gen:<hex pattern>:<n>` = the pattern repeated to n bytes
+(large compressible plaintexts; keeps op lines short) -/
+def unhexTok (s : St) (tok : String) : St × Option Bytes :=
+  if tok.startsWith "gen:" then
+    match s.genCache with
+    | some (t, b) => if t = tok then (s, some b) else expand
+    | none => expand
+  else (s, unhex tok)
+where
+  expand : St × Option Bytes :=
+    match tok.splitOn ":" with
+    | [_, p, n] =>
+      match unhex p, n.toNat? with
+      | some pat, some n =>
+        let b := genBytes pat.toArray n
+        ({ s with genCache := some (tok, b) }, some b)
+      | _, _ => (s, none)
+    | _ => (s, none)
 
 def fnv (b : Bytes) : UInt64 :=
   b.foldl (fun h x => (h ^^^ x.toUInt64) * 1099511628211) 14695981039346656037
@@ -112,11 +140,15 @@ def dataOp (s : St) (d : Dir) (b : Bytes) (es : Bool) : St × String :=
 def stepOn (s : St) (toks : List String) : St × String :=
   match toks with
   | ["dec", e, w, p] =>
-    match parseEnc e, unhex w, (if p = "!" then some none else (unhex p).map some) with
+    let (s, pb) := if p = "!" then (s, some none) else
+      match unhexTok s p with
+      | (s', r) => (s', r.map some)
+    match parseEnc e, unhex w, pb with
     | some e, some w, some p => ({ s with decT := (e, w, p) :: s.decT }, "ok")
     | _, _, _ => (s, "bad-op")
   | ["cmp", e, p, w] =>
-    match parseEnc e, unhex p, unhex w with
+    let (s, pb) := unhexTok s p
+    match parseEnc e, pb, unhex w with
     | some e, some p, some w => ({ s with cmpT := (e, p, w) :: s.cmpT }, "ok")
     | _, _, _ => (s, "bad-op")
   | ["hdr", d, es, hs] =>
